@@ -61,6 +61,7 @@ type vc08Case struct {
 	Tape []int       `json:"tape,omitempty"` // kinds mp, js: choices the value is built from
 	Pin2 *vc08PinIn  `json:"pin2,omitempty"` // kind eq: the pin compared with Pin
 	Same bool        `json:"same,omitempty"` // kind eq: compare the value with itself (same pointer)
+	Fuzz *vc08Fuzz   `json:"fuzz,omitempty"` // kind fuzz: one recorded malformed input
 }
 
 // which universe a token's valid values come from
@@ -804,6 +805,8 @@ func vc08GenNames(r *vRand) vc08Case {
 	}
 }
 
+func protoMarshalV(m *pb.Pin) ([]byte, error) { return proto.Marshal(m) }
+
 func vc08Gen(r *vRand) vc08Case {
 	switch x := r.intn(100); {
 	case x < 20:
@@ -851,6 +854,10 @@ func vc08Run(out *vOut, c vc08Case) {
 			if c.Pin != nil {
 				vc08RunEq(out, c)
 			}
+		case "fuzz":
+			if c.Fuzz != nil {
+				vc08RunFuzzCase(out, c)
+			}
 		}
 	})
 }
@@ -884,5 +891,14 @@ func TestVerifC08(t *testing.T) {
 	}
 	for _, c := range cases {
 		vc08Run(out, c)
+	}
+	if vCasesIn() == nil {
+		// malformed-input stream (fuzzing; reported as a test, not as a theorem)
+		per := 20000
+		if vEnvInt("VERIF_N", 0) > 20000 {
+			per = 120000
+		}
+		per = vEnvInt("VERIF_FUZZ", per)
+		vc08FuzzStream(out, seed, per/len(vc08FuzzDecoders())*3+per/20)
 	}
 }
